@@ -11,7 +11,8 @@ SAMPLE_KEYS = ("latency", "fate_weights", "t_adv", "blackouts", "rebinds", "cc",
                "server_cert", "faults_on")
 
 
-def run_resumed(seed, replay, profile2, make_oracles2, variant, early_writes=(), extra_summary=None):
+def run_resumed(seed, replay, profile2, make_oracles2, variant, early_writes=(), extra_summary=None,
+                secrets_log=True, quic_logger=False, keep=None):
     """The `restart` fault: connection 1 (fault-free) obtains a session ticket, the application keeps
     it, connection 2 resumes with it and optionally writes 0-RTT data at t=0. Oracles attach to
     connection 2. Returns an Outcome."""
@@ -26,11 +27,14 @@ def run_resumed(seed, replay, profile2, make_oracles2, variant, early_writes=(),
         }
 
     base = {"versions": False, "cipher_suites": False, "server_cert": "server_ed25519", "small_limits": 0.0,
-            "secrets_log": True, "idle_timeouts": (20.0,)}
+            "secrets_log": secrets_log, "quic_logger": quic_logger, "idle_timeouts": (20.0,)}
     prof1 = dict(base, fault_free=True, max_ops=2, fair_budget=30.0, drain=1.0)
     prof1.update(kwargs())
     out = Outcome(seed)
-    sim1 = TransportSim(ch, prof1, [WireMonitor()])
+    sim1 = TransportSim(ch, prof1, [WireMonitor()] if secrets_log else [])
+    if keep is not None:
+        keep["sim1"] = sim1
+        sim1.k.keep_trace = True
     sim1.run()
     if not store["client"]:
         out.summary = dict(sim1.summary(), reason="no-ticket", inconclusive=True)
@@ -52,9 +56,13 @@ def run_resumed(seed, replay, profile2, make_oracles2, variant, early_writes=(),
     prof2 = dict(base, wall_base=100.0, configure=configure, schedule_extra=schedule)
     prof2.update(profile2)
     prof2.update(kwargs())
-    mon = WireMonitor()
-    oracles = [mon] + list(make_oracles2(mon))
+    mon = WireMonitor() if secrets_log else None
+    oracles = ([mon] if mon is not None else []) + list(make_oracles2(mon))
     sim2 = TransportSim(ch, prof2, oracles)
+    if keep is not None:
+        keep["sim2"] = sim2
+        keep["ch"] = ch
+        sim2.k.keep_trace = True
     try:
         reason = sim2.run()
     except Violation as v:
@@ -64,12 +72,13 @@ def run_resumed(seed, replay, profile2, make_oracles2, variant, early_writes=(),
     s["reason"] = reason
     s["inconclusive"] = reason == "step-cap"
     s["aborted"] = reason == "api-exception"
-    s.setdefault("extra", {}).update(mon.stats())
+    if mon is not None:
+        s.setdefault("extra", {}).update(mon.stats())
     try:
         s["probes"]["early_data_accepted"] = int(bool(sim2.client.conn.tls.early_data_accepted))
     except Exception:
         pass
-    for name, n in mon.frame_counts.items():
+    for name, n in (mon.frame_counts.items() if mon is not None else ()):
         s["probes"]["frame:" + name] = n
     if extra_summary is not None:
         extra_summary(sim2, s)
